@@ -181,6 +181,10 @@ def direct_calls(spec, workdir):
         ("full_like", lambda: xp.full_like(a, 3), False),
         ("from_array", lambda: cubed.from_array(a_np, chunks=(2, 2), spec=spec) * 2, False),
         ("from_zarr", lambda: cubed.from_zarr(tgt, spec=spec) + 1, False),
+        # inputs beyond the size up to which cubed embeds in-memory data in the plan (1 MB) and well beyond it
+        ("from_array(1.5MB)", lambda: large_input_programs(cubed.from_array(np.ones((384, 512)), chunks=(128, 256), spec=spec), workdir, "fa1"), False),
+        ("from_array(12MB,one-block)", lambda: large_input_programs(cubed.from_array(np.ones((1024, 1536)), chunks=(1024, 1536), spec=spec), workdir, "fa2"), False),
+        ("asarray(0.98MB)", lambda: large_input_programs(xp.asarray(np.ones((350, 350)), chunks=(128, 256), spec=spec), workdir, "as1"), False),
         ("rechunk", lambda: cubed.rechunk(b, (4, 2)), False),
         ("map_blocks", lambda: cubed.map_blocks(lambda x: x * 2, b, dtype=b.dtype), False),
         ("random.random", lambda: cubed.random.random((5, 5), chunks=(2, 2), spec=spec) * 2, False),
@@ -208,6 +212,18 @@ def direct_calls(spec, workdir):
         ("take-with-cubed-array", lambda: xp.take(v, xp.asarray([0, 2], spec=spec)), True),
     ]
     return calls
+
+
+def large_input_programs(x, workdir, tag):
+    """Build, plan and visualise a few programs over a large in-memory input."""
+    import cubed
+    import cubed.array_api as xp
+
+    y = xp.sum(x * 2, axis=0)
+    z = x.rechunk((x.shape[0], max(1, x.chunksize[1] // 2)))
+    cubed.plan(y, z)
+    cubed.visualize(y, z, filename=os.path.join(workdir, "viz", "large-" + tag))
+    return y.plan().num_tasks, z.nchunks, x.nbytes
 
 
 def irregular_rechunk_plans(workdir):
